@@ -9,6 +9,7 @@ package main
 import (
 	"fmt"
 	"math"
+	"strings"
 
 	"gonum.org/v1/gonum/internal/verif/vlib"
 	"gonum.org/v1/gonum/mat"
@@ -112,10 +113,23 @@ func (s *solver) run(t *vlib.T, cfg solveCfg) {
 							continue
 						}
 						dst = bd
+					case "aliasT":
+						// the right-hand side is the transpose VIEW of the destination itself: b = dst.T()
+						if !s.aliasOK || op.r != op.c || nrhs != op.r || (brep != "dense" && brep != "view") {
+							continue
+						}
+						dst = repGen(brep, bM.T()).(*mat.Dense)
+						b = dst.T()
 					}
 					label := fmt.Sprintf("%s.SolveTo trans=%v nrhs=%d b=%s dst=%s", s.name, trans, nrhs, brep, dk)
 					var err error
 					if msg := recoverMsg(func() { err = s.solve(dst, trans, b) }); msg != "" {
+						if dk == "aliasT" && strings.Contains(msg, "bad region") {
+							// mat's documented reaction to overlapping operands it does not support (C05's
+							// territory): an explicit refusal is fine, a silently wrong answer is not.
+							t.Count("aliasT_refused_with_overlap_panic", 1)
+							continue
+						}
 						t.Failf("%s: panic %q", label, msg)
 						continue
 					}
@@ -125,7 +139,7 @@ func (s *solver) run(t *vlib.T, cfg solveCfg) {
 							t.Failf("%s: wrote outside dst view at backing index %d", label, idx)
 						}
 					}
-					if dk != "alias" {
+					if dk != "alias" && dk != "aliasT" {
 						// b must be unchanged
 						if got := fromMat(b); maxAbs(subM(got, bM)) != 0 {
 							t.Failf("%s: right-hand side was modified", label)
@@ -160,6 +174,8 @@ func (s *solver) run(t *vlib.T, cfg solveCfg) {
 							continue
 						}
 						dst = bd
+					case "aliasT":
+						continue // matrices only
 					}
 					label := fmt.Sprintf("%s.SolveVecTo trans=%v b=%s dst=%s", s.name, trans, vrep, dk)
 					var err error
